@@ -5,8 +5,8 @@ RULE = ("Hypothesis-generated sessions whose ScriptedStrategy programs declare e
         "on_increased_position and through liquidate(), with price offsets that include exactly current x (1 +- 0.00015) and its "
         "neighbours, far better / far worse prices, repeated modifications over many steps and should_cancel_entry scripted per "
         "step. Oracles from the trace: (routing) every broker-created order outside the forced close of the session end must "
-        "match a row of the strategy's latest declaration read at the moment of submission (|qty| equal; price equal, or MARKET "
-        "with the row's price within 0.015 % of current), be MARKET iff |1 - p/current| <= 0.00015, otherwise an entry at a "
+        "match a row of the strategy's latest declaration read at the moment of submission (|qty| equal; price equal - also for an exit routed as "
+        "MARKET, which carries the declared price; a MARKET entry is matched to a row within 0.015 % of current), be MARKET iff |1 - p/current| <= 0.00015, otherwise an entry at a "
         "better price LIMIT / worse price STOP and an exit on the profit side LIMIT / loss side STOP, with exits reduce-only on "
         "the closing side and entries not reduce-only; (declarative) at every after() with an open position the active "
         "stop-loss (take-profit) orders map injectively onto rows of the latest stop_loss (take_profit) declaration, and with "
@@ -18,6 +18,7 @@ ASSUMPTIONS = [
     "exits declared in go_long/go_short on the wrong side of the entry price (documented immediate market close) are excluded by construction",
     "the 0.015 % test is evaluated with the same double expression as documented, abs(1 - p / current) <= 0.00015; a result within 4 ulps of the threshold admits either routing",
     "'current price' is strategy.price at the moment of submission (recorded by the harness)",
+    "a MARKET entry is not held to the declared price: buy_at_market / sell_at_market take no price argument (the order carries the current price)",
 ]
 TECHNIQUE = "trace oracle over generated strategy programs: routing decision table + injective matching of active exits onto the latest declaration"
 MIN_NONTRIVIAL = {'quick': 60, 'thorough': 3000}
@@ -35,12 +36,12 @@ def match_row(rows, qty, price, typ, cur):
     if not rows:
         return None
     for i, (q, p) in enumerate(rows):
-        if abs(q) != abs(qty):
-            continue
-        if p == price:
+        if abs(q) == abs(qty) and p == price:
             return i
-        if typ == 'MARKET' and near(p, cur) is not False:
-            return i
+    if typ == 'MARKET':
+        for i, (q, p) in enumerate(rows):
+            if abs(q) == abs(qty) and near(p, cur) is not False:
+                return i
     return None
 
 
@@ -68,7 +69,10 @@ def check_run(spec, r):
             if i1 is None and i2 is None:
                 vios.append((f'C10:sim={sim}:routing:exit-order-nobody-asked-for', f"order {e['ord']} {typ} {side} qty={qty} price={price}: declarations {decl}"))
                 continue
-            p = (decl['stop_loss'][i1][1] if i1 is not None else decl['take_profit'][i2][1])
+            cands = [decl['stop_loss'][i1][1]] if i1 is not None else []
+            if i2 is not None:
+                cands.append(decl['take_profit'][i2][1])
+            p = price if price in cands else cands[0]  # a MARKET exit may be near rows of both lists: the row with its exact price is the one it was made for
             nr = near(p, cur)
             if nr is None:
                 flags.add('boundary-price')
@@ -78,8 +82,10 @@ def check_run(spec, r):
                 flags.add('boundary-price')
             if typ != want:
                 vios.append((f'C10:sim={sim}:routing:exit-type:{want}-expected-{typ}-submitted', f"order {e['ord']}: exit at {p!r} with current price {cur!r} on a {'long' if pos > 0 else 'short'} routed as {typ}"))
-            if typ != 'MARKET' and price != p:
-                vios.append((f'C10:sim={sim}:routing:exit-price', f"order {e['ord']} price {price!r} declared {p!r}"))
+            if price != p:
+                # (an exit routed as MARKET keeps the declared price too: Broker.reduce_position_at passes it on; a MARKET *entry*
+                # goes through buy_at_market/sell_at_market, which take no price, and is therefore not held to it)
+                vios.append((f"C10:sim={sim}:routing:exit-price{':market-order' if typ == 'MARKET' else ''}", f"order {e['ord']} {typ} price {price!r} declared {p!r} (current {cur!r})"))
         else:
             rows = decl.get('buy') if side == 'buy' else decl.get('sell')
             i = match_row(rows, qty, price, typ, cur)
